@@ -33,7 +33,7 @@ STATE_MEASURE = 'distinct (descriptor counts per message, max descriptors queued
 PROBES = ['fd-of-next-message-queued-early', 'fds-of-two-later-messages-queued',
           'fd-with-last-byte', 'fd-with-first-byte', 'plain-message-between-fd-messages',
           'index-out-of-order', 'three-descriptors', 'send-side', 'read-spans-messages', 'undecodable-message-with-descriptors',
-          'dropped-at-undecodable-message']
+          'dropped-at-undecodable-message', 'prepared-message-sent-twice', 'receiver-is-client-connection']
 COMPONENTS = {
     'real': ['txdbus.protocol.BasicDBusProtocol (fileDescriptorReceived, rawDBusMessageReceived)',
              'txdbus.message.parseMessage / txdbus.marshal unmarshal_unix_fd',
@@ -131,16 +131,28 @@ def recv_side(ctx):
         def errorReceived(self, m):
             record.append(m)
 
-    proto = Rec()
-    node = Node('rx', serial_start=5)
-    peer = DumbPeer('tx')
-    conn = net.Connection(sim, 'c', node, None, unix=True)
-    conn.attach(proto, peer)
-    tx = conn.b
-    pipe = conn.pipes[1]
-    tx.write(b'OK 0123456789abcdef\r\nAGREE_UNIX_FD\r\n')
-    net.deliver(sim, pipe, len(pipe.buf))
-    net.deliver(sim, conn.pipes[0], len(conn.pipes[0].buf))
+    client_rx = ds.flag(0.3)
+    if client_rx:
+        # the receiver is a real client connection (Hello answered, no call outstanding): replies
+        # nobody waits for carry descriptors like any other message
+        sim.probe('receiver-is-client-connection')
+        rig = ClientRig(ctx, unix=True)
+        proto, conn = rig.proto, rig.conn
+        for hname in ('methodCallReceived', 'signalReceived', 'methodReturnReceived', 'errorReceived'):
+            setattr(proto, hname, record.append)
+        tx = conn.b
+        pipe = conn.pipes[1]
+    else:
+        proto = Rec()
+        node = Node('rx', serial_start=5)
+        peer = DumbPeer('tx')
+        conn = net.Connection(sim, 'c', node, None, unix=True)
+        conn.attach(proto, peer)
+        tx = conn.b
+        pipe = conn.pipes[1]
+        tx.write(b'OK 0123456789abcdef\r\nAGREE_UNIX_FD\r\n')
+        net.deliver(sim, pipe, len(pipe.buf))
+        net.deliver(sim, conn.pipes[0], len(conn.pipes[0].buf))
     if not getattr(proto, '_authenticated', True):
         raise Violation('C20/harness', 'handshake', 'receiver not authenticated')
     n = 1 + ds.choose(12 * (3 if ctx.tier == 'thorough' else 1))
@@ -245,6 +257,14 @@ def recv_side(ctx):
         msgs = msgs[:bad_at]
     elif bad_at is not None:
         msgs = msgs[:bad_at] + msgs[bad_at + 1:]
+    if client_rx and len(record) < len(msgs):
+        # a client connection may discard replies nobody waits for (their descriptors consumed all
+        # the same); everything else must arrive, in order
+        got_serials = [getattr(r, 'serial', None) for r in record]
+        kept = [x for x in msgs if x[0].mtype != 2 or x[0].serial in got_serials]
+        if len(kept) == len(record):
+            sim.probe('client-discarded-unsolicited-reply')
+            msgs = kept
     if len(record) != len(msgs):
         raise Violation('C20/count', 'messages', '%d of %d messages delivered' % (len(record), len(msgs)))
     prev_fd = False
@@ -342,6 +362,33 @@ def send_side(ctx):
         if hv != list(range(len(fds))):
             raise Violation('C20/send-index', 'indices', 'h arguments encoded as %r' % (hv,))
         sim.state(('send', len(fds)))
+        if fds and ds.flag(0.3):
+            # a prepared message transmitted more than once (the same request on this connection
+            # again after it was answered, or on a second connection): every transmission
+            # carries the descriptors
+            from txdbus import message as t_message
+            sim.probe('prepared-message-sent-twice')
+            other = ClientRig(ctx, name='c2', unix=True, bus_name=':1.43', node=rig.node) if ds.flag(0.5) else None
+            if other is not None:
+                other.conn.a.fd_taps.append(lambda fd: events.append(('fd2', fd)))
+                other.conn.a.taps.append(lambda data: events.append(('w2', len(data))))
+            mc = rig.call(lambda: t_message.MethodCallMessage(
+                '/fd', 'Pass', interface='org.sim.Fd', destination='org.sim.svc', signature=sig,
+                body=body, oobFDs=[]))
+            for attempt in range(2):
+                del events[:]
+                target = other if (other is not None and attempt == 1) else rig
+                d2 = target.call(target.proto.callRemoteMessage, mc)
+                d2.addErrback(lambda f: None)
+                tag = '2' if target is other else ''
+                got2 = [e[1] for e in events if e[0] == 'fd' + tag]
+                if got2 != fds:
+                    raise Violation('C20/send-order', 'descriptors of a retransmission',
+                                    'transmission %d of a prepared message: sendFileDescriptor called '
+                                    'with %r, arguments carry %r' % (attempt + 1, got2, fds))
+                # the call is answered before the message is used again
+                target.daemon.method_return(mc.serial, dest=target.bus_name)
+                target.calm()
     check_no_exceptions(sim, 'C20')
 
 
